@@ -351,5 +351,5 @@ func TestC09(t *testing.T) {
 		limit = 0
 	}
 	r.Exhaustive("sched-2", limit, parts["sched-2"])
-	r.Rapid("sequential", r.N(3000, 80000), c09Seq)
+	r.Rapid("sequential", r.N(8000, 80000), c09Seq)
 }
